@@ -133,9 +133,9 @@ def weighted(rng, table):
     return table[-1][0]
 
 
-def run_random_session(seed, prof, frontend="wsgi", prefix="/", backend="tree", audit_git=True):
+def run_random_session(seed, prof, frontend="wsgi", prefix="/", backend="tree", audit_git=True, principal="/user/"):
     rng = random.Random(seed)
-    s = DavSession(frontend=frontend, prefix=prefix, backend=backend, audit_git=audit_git)
+    s = DavSession(frontend=frontend, prefix=prefix, backend=backend, audit_git=audit_git, principal=principal)
     try:
         ics = ics_pool(rng, prof.get("uidheavy", False))
         vcf = vcf_pool()
@@ -272,7 +272,7 @@ def run_random_session(seed, prof, frontend="wsgi", prefix="/", backend="tree", 
             elif op == "reupload":
                 if live:
                     n = rng.choice(sorted(live))
-                    g = s.world.request("GET", SLOTS[c] + "/" + n)
+                    g = s.world.request("GET", s.slots[c] + "/" + n)
                     if g.status == 200:
                         s.put(c, n, g.body, re=True)
         # always leave without stale locks so the final audit is a plain one
